@@ -222,6 +222,61 @@ fn record(seed: u64, walks: usize, len: usize, path: &str) {
     out.flush();
 }
 
+/// C01, producer "runtime builder": TLC histories of register_type over bodies that mention ids
+fn builder_histories(cases: &str, outp: &str) {
+    use scale_info::{build::Fields, Path};
+    let mut out = Out::create(outp);
+    let (mut n, mut bad) = (0u64, 0u64);
+    for (ci, c) in read_ndjson(cases).iter().enumerate() {
+        n += 1;
+        let ops = c["ops"].as_array().unwrap().clone();
+        let res = guarded(move || {
+            let mut b = PortableRegistryBuilder::new();
+            for op in &ops {
+                match op["k"].as_str().unwrap() {
+                    "prim" => { b.register_type(Type::new(Default::default(), vec![], TypeDefPrimitive::U8, vec![])); }
+                    "seq" => { b.register_type(Type::new(Default::default(), vec![], TypeDefSequence::<PortableForm>::new((op["i"].as_u64().unwrap() as u32).into()), vec![])); }
+                    "selfref" => {
+                        let next = b.next_type_id();
+                        b.register_type(Type::builder_portable().path(Path::from_segments_unchecked(vec!["m".to_string(), "S".to_string()]))
+                            .composite(Fields::named().field_portable(|f| f.name("next".into()).ty(next))));
+                    }
+                    k => panic!("op {k}"),
+                }
+            }
+            b.finish()
+        });
+        let mut mism: Vec<String> = vec![];
+        match res {
+            Err(p) => mism.push(format!("panic: {p}")),
+            Ok(reg) => {
+                let got = proj::registry(proj::Mode::Plain, &reg);
+                let len = reg.types.len() as u64;
+                let dense = reg.types.iter().enumerate().all(|(i, t)| t.id == i as u32 && reg.resolve(i as u32) == Some(&t.ty));
+                let mut closed = true;
+                for e in got.as_array().unwrap() {
+                    let d = &e["def"];
+                    let mut chk = |v: &Value| closed &= v.as_u64().unwrap() < len;
+                    match d["tag"].as_str().unwrap() {
+                        "sequence" => chk(&d["ty"]),
+                        "composite" => d["fields"].as_array().unwrap().iter().for_each(|f| chk(&f["ty"])),
+                        _ => {}
+                    }
+                }
+                if !dense { mism.push("finish() is not dense".into()); }
+                if closed != c["disciplined"].as_bool().unwrap() { mism.push(format!("finish() closed={closed} but the history is disciplined={}", c["disciplined"])); }
+                if got != c["finish"] { mism.push("finish() differs from the specification's".into()); }
+            }
+        }
+        if !mism.is_empty() {
+            bad += 1;
+            out.put(&json!({"case": ci, "input": c, "mismatch": mism}));
+        }
+    }
+    out.flush();
+    println!("{}", json!({"executed": n, "mismatching_cases": bad}));
+}
+
 fn main() {
     let a: Vec<String> = std::env::args().collect();
     vh::quiet_panics();
@@ -240,6 +295,7 @@ fn main() {
             println!("{}", json!({"executed": n, "mismatches": bad}));
         }
         "record" => record(a[2].parse().unwrap(), a[3].parse().unwrap(), a[4].parse().unwrap(), &a[5]),
+        "builder" => builder_histories(&a[2], &a[3]),
         _ => panic!("usage"),
     }
     let _ = proj::Mode::Plain;
